@@ -182,7 +182,7 @@ func (g *gen) leafSubject() (dnAST, string) {
 		as = append(as, attr{g.pick([]string{"SERIALNUMBER", "POSTALCODE"}), g.pick([]string{"12345", "98101", "sn 7"})})
 		g.r.Shuffle(len(as), func(i, j int) { as[i], as[j] = as[j], as[i] })
 		return singles(as), "valid-extra-known-type"
-	case p < 0.79:
+	case p < 0.78:
 		// a mandatory attribute is missing
 		drop := g.pick([]string{"C", "ST", "O"})
 		var out []attr
@@ -200,7 +200,7 @@ func (g *gen) leafSubject() (dnAST, string) {
 			}
 		}
 		return singles(as), "empty-mandatory"
-	case p < 0.86:
+	case p < 0.84:
 		// two common names: x509 keeps the last one
 		as = append(as, attr{"CN", g.value() + "2"})
 		if g.chance(0.5) {
@@ -208,11 +208,38 @@ func (g *gen) leafSubject() (dnAST, string) {
 		}
 		return singles(as), "duplicate-CN"
 	case p < 0.91:
-		// a repeated multi-valued type: rendered as one multi-valued RDN
-		t := g.pick([]string{"OU", "O", "C", "ST", "L", "STREET"})
-		as = append(as, attr{t, g.value() + "2"})
-		g.r.Shuffle(len(as), func(i, j int) { as[i], as[j] = as[j], as[i] })
-		return singles(as), "duplicate-" + t
+		// a repeated attribute type (x509 renders the values as ONE RDN, `O=a+O=b`): two or three
+		// values, as separate RDNs or as one multi-valued SET of the certificate
+		t := g.pick([]string{"OU", "OU", "O", "O", "C", "ST", "L", "STREET"})
+		var first attr
+		var rest []attr
+		for _, a := range as {
+			if a.T == t && first.T == "" {
+				first = a
+			} else if a.T != t {
+				rest = append(rest, a)
+			}
+		}
+		if first.T == "" {
+			first = attr{t, g.value()}
+		}
+		vals := []attr{first, {t, g.value() + "2"}}
+		if g.chance(0.3) {
+			vals = append(vals, attr{t, g.value() + "3"})
+		}
+		if g.chance(0.2) {
+			vals[1].V = first.V // the same value twice
+		}
+		if g.chance(0.4) {
+			d := append(dnAST{rdn(vals)}, singles(rest)...)
+			g.r.Shuffle(len(d), func(i, j int) { d[i], d[j] = d[j], d[i] })
+			return d, "repeated-" + t + "-in-one-set"
+		}
+		as = append(rest, vals...)
+		if g.chance(0.5) {
+			g.r.Shuffle(len(as), func(i, j int) { as[i], as[j] = as[j], as[i] })
+		}
+		return singles(as), "repeated-" + t
 	case p < 0.95:
 		as = append(as, attr{"2.5.4.12", "Chief"})
 		g.r.Shuffle(len(as), func(i, j int) { as[i], as[j] = as[j], as[i] })
@@ -383,17 +410,22 @@ func (g *gen) nearMiss(v string) string {
 
 // the subject whose attributes identities are derived from: the leaf as x509 will show it when
 // it is single-valued and duplicate free, otherwise a cleaned-up version of it
-func base(leaf dnAST) []attr {
+func (g *gen) base(leaf dnAST) []attr {
+	// a repeated type: the first or the last value stands for it, by a coin flip per call (x509
+	// keeps the last common name; an implementation might let either value stand for an RDN
+	// that repeats a type)
+	lastWins := g.chance(0.5)
 	var out []attr
 	for _, a := range leaf.flat() {
 		if _, known := oids[a.T]; !known || a.T == "2.5.4.12" {
 			continue
 		}
 		if hasType(out, a.T) {
-			// a repeated type: the later value wins (as x509 does for the common name)
-			for i := range out {
-				if out[i].T == a.T {
-					out[i].V = a.V
+			if lastWins {
+				for i := range out {
+					if out[i].T == a.T {
+						out[i].V = a.V
+					}
 				}
 			}
 			continue
@@ -420,7 +452,7 @@ func withAlias(as []attr) []attr {
 
 // identity returns one identity string and the name of its kind
 func (g *gen) identity(leaf dnAST, cas []dnAST) (string, string, dnAST) {
-	b := base(leaf)
+	b := g.base(leaf)
 	x := func(d dnAST) string { return x509p + g.render(d) }
 	missing := func() string {
 		var cand []string
@@ -531,6 +563,26 @@ func (g *gen) identity(leaf dnAST, cas []dnAST) (string, string, dnAST) {
 		}
 		d := singles(as)
 		return x(d), "duplicate-attribute", d
+	case p < 0.765:
+		// an RDN that repeats one attribute type (`O=v+O=w`): first or last value is the subject's
+		as := g.shuffled(b)
+		i := g.r.Intn(len(as))
+		rep := rdn{as[i], attr{as[i].T, g.nearMiss(as[i].V)}}
+		if g.chance(0.5) {
+			rep[0], rep[1] = rep[1], rep[0]
+		}
+		if g.chance(0.2) {
+			rep[1].V = rep[0].V
+		}
+		var d dnAST
+		for j, a := range as {
+			if j == i {
+				d = append(d, rep)
+			} else {
+				d = append(d, rdn{a})
+			}
+		}
+		return x(d), "repeated-type-rdn", d
 	case p < 0.78:
 		// two (or three) attributes in one multi-valued RDN
 		as := g.shuffled(b)
@@ -718,26 +770,45 @@ type Plugin struct {
 }
 
 // script sets what the installed plugin declares and answers
+const (
+	capTI  = string(pluginfw.CapabilityTrustedIdentityVerifier)
+	capRev = string(pluginfw.CapabilityRevocationCheckVerifier)
+)
+
+// script sets what the installed plugin declares and answers: the capabilities exactly as
+// spelled in the case; the answer is keyed the way the plugin spells each capability, the
+// trusted-identity verdict (in whatever spelling) is IdentitySuccess, everything else succeeds
 func (w *world) script(p *Plugin) {
 	if p == nil {
 		return
 	}
-	var caps []pluginfw.Capability
+	caps := []pluginfw.Capability{}
 	results := map[pluginfw.Capability]*pluginfw.VerificationResult{}
 	for _, c := range p.Capabilities {
-		switch c {
-		case "trustedIdentity":
-			caps = append(caps, pluginfw.CapabilityTrustedIdentityVerifier)
-			results[pluginfw.CapabilityTrustedIdentityVerifier] = &pluginfw.VerificationResult{Success: p.IdentitySuccess, Reason: "scripted"}
-		case "revocationCheck":
-			caps = append(caps, pluginfw.CapabilityRevocationCheckVerifier)
-			results[pluginfw.CapabilityRevocationCheckVerifier] = &pluginfw.VerificationResult{Success: true}
+		caps = append(caps, pluginfw.Capability(c))
+		if strings.EqualFold(strings.TrimSpace(c), capTI) {
+			results[pluginfw.Capability(c)] = &pluginfw.VerificationResult{Success: p.IdentitySuccess, Reason: "scripted"}
+		} else {
+			results[pluginfw.Capability(c)] = &pluginfw.VerificationResult{Success: true}
 		}
 	}
 	w.plugin.Metadata = &pluginfw.GetMetadataResponse{Name: pluginName, Description: "d", Version: "1.0.0", URL: "u",
 		SupportedContractVersions: []string{"1.0"}, Capabilities: caps}
 	w.plugin.VerifyResp = &pluginfw.VerifySignatureResponse{VerificationResults: results}
 	w.plugin.VerifyRequests = nil
+}
+
+// exactCaps: the declared capabilities that are exactly one of the two verification capabilities
+func exactCaps(p *Plugin) (n int, ownsIdentity bool) {
+	for _, c := range p.Capabilities {
+		if c == capTI || c == capRev {
+			n++
+		}
+		if c == capTI {
+			ownsIdentity = true
+		}
+	}
+	return
 }
 
 type config struct {
@@ -801,31 +872,79 @@ func ski(k crypto.Signer) []byte {
 	return h[:]
 }
 
-func (g *gen) pluginFor() *Plugin {
-	switch p := g.r.Float64(); {
-	case p < 0.62:
-		return nil
-	case p < 0.82:
-		// declares the revocation capability only: the identity check stays native
-		return &Plugin{Capabilities: []string{"revocationCheck"}, IdentitySuccess: g.chance(0.5)}
-	case p < 0.91:
-		return &Plugin{Capabilities: []string{"trustedIdentity"}, IdentitySuccess: g.chance(0.5)}
+// odd returns another spelling of a capability name (letter case, white space, separator)
+func (g *gen) odd(c string) string {
+	switch g.r.Intn(9) {
+	case 7:
+		return c + "_V2"
+	case 8:
+		return c[:strings.Index(c, ".")+1] + "OTHER"
+	case 0:
+		return strings.ToLower(c)
+	case 1:
+		return strings.ToUpper(c[:1]) + strings.ToLower(c[1:])
+	case 2:
+		return c + " "
+	case 3:
+		return " " + c
+	case 4:
+		i := g.r.Intn(len(c))
+		return c[:i] + strings.ToLower(c[i:i+1]) + c[i+1:]
+	case 5:
+		return strings.Replace(c, ".", "_", 1)
 	default:
-		caps := []string{"trustedIdentity", "revocationCheck"}
-		if g.chance(0.5) {
-			caps = []string{"revocationCheck", "trustedIdentity"}
-		}
-		return &Plugin{Capabilities: caps, IdentitySuccess: g.chance(0.5)}
+		return strings.Replace(strings.ToLower(c), "_", "-", -1)
 	}
 }
+
+func (g *gen) pluginFor() *Plugin {
+	ok := g.chance(0.5)
+	shuffle := func(caps []string) []string {
+		g.r.Shuffle(len(caps), func(i, j int) { caps[i], caps[j] = caps[j], caps[i] })
+		return caps
+	}
+	switch p := g.r.Float64(); {
+	case p < 0.55:
+		return nil
+	case p < 0.70:
+		// declares the revocation capability only: the identity check stays native
+		return &Plugin{Capabilities: []string{capRev}, IdentitySuccess: ok}
+	case p < 0.77:
+		return &Plugin{Capabilities: []string{capTI}, IdentitySuccess: ok}
+	case p < 0.83:
+		return &Plugin{Capabilities: shuffle([]string{capTI, capRev}), IdentitySuccess: ok}
+	case p < 0.90:
+		// the trusted-identity capability in another spelling next to the exact revocation one:
+		// not the trusted-identity capability - the check stays native
+		return &Plugin{Capabilities: shuffle([]string{g.odd(capTI), capRev}), IdentitySuccess: ok}
+	case p < 0.93:
+		// only other spellings (or capabilities of another kind, or none): no verification capability
+		return &Plugin{Capabilities: g.pick2([][]string{{g.odd(capTI)}, {g.odd(capTI), g.odd(capRev)}, {g.odd(capRev)},
+			{"SIGNATURE_GENERATOR.RAW"}, {}}), IdentitySuccess: ok}
+	case p < 0.96:
+		// exact trusted identity, revocation in another spelling: the plugin owns the identity check
+		return &Plugin{Capabilities: shuffle([]string{capTI, g.odd(capRev)}), IdentitySuccess: ok}
+	default:
+		// both spellings of the trusted-identity capability
+		return &Plugin{Capabilities: shuffle([]string{capTI, g.odd(capTI), "SIGNATURE_GENERATOR.ENVELOPE"}), IdentitySuccess: ok}
+	}
+}
+
+func (g *gen) pick2(xs [][]string) []string { return xs[g.r.Intn(len(xs))] }
 
 func pluginKind(p *Plugin) string {
 	if p == nil {
 		return "none"
 	}
-	k := strings.Join(p.Capabilities, "+")
-	if strings.Contains(k, "trustedIdentity") {
-		k += fmt.Sprint("/answers-", p.IdentitySuccess)
+	n, owns := exactCaps(p)
+	k := fmt.Sprintf("declared=%d,exact=%d", len(p.Capabilities), n)
+	switch {
+	case n == 0:
+		k += ",refused"
+	case owns:
+		k += fmt.Sprint(",owns-identity/answers-", p.IdentitySuccess)
+	default:
+		k += ",native"
 	}
 	return k
 }
@@ -965,7 +1084,11 @@ func Run(c *common.Ctx) error {
 			if cf.plugin != nil {
 				c.Count(fmt.Sprint("plugin-executed=", len(w.plugin.VerifyRequests) > 0))
 			}
-			native := cf.plugin == nil || !strings.Contains(pluginKind(cf.plugin), "trustedIdentity")
+			native := cf.plugin == nil
+			if cf.plugin != nil {
+				n, owns := exactCaps(cf.plugin)
+				native = n > 0 && !owns
+			}
 			if native {
 				if pass {
 					c.Count("outcome=pass")
@@ -1025,7 +1148,7 @@ func Run(c *common.Ctx) error {
 			switch p := g.r.Float64(); {
 			case p < 0.10 && len(ids) > 0:
 				// a matching identity next to whatever was drawn
-				good := x509p + g.render(singles(g.shuffled(base(leaf))))
+				good := x509p + g.render(singles(g.shuffled(g.base(leaf))))
 				if g.chance(0.5) {
 					ids = append(ids, good)
 				} else {
